@@ -1071,16 +1071,307 @@ Section Staging.
         * destruct (negb (recoverable (w_errno w1))); [|destruct (ret =? 0)]; try exact I1;
             destruct I1 as (zin & K1 & K2 & K3); exists zin; unfold conn_disconnect; cbn; destruct (w_disc w1); cbn;
             repeat split; auto.
-        * intros _ Ho. destruct (C eq_refl Ho) as (C1 & C2 & C3 & C4 & C5 & C6).
+        * intros _ Ho. destruct (C Ed Ho) as (C1 & C2 & C3 & C4 & C5 & C6).
           rewrite C2. cbn. subst ret. cbn.
           split; [exact C5|]. split; [exact C6|]. split; [rewrite C3; constructor|].
           split; [intros _; split; assumption|].
           intros _. unfold mu. rewrite J2.
-          destruct (J7 eq_refl Ho Hact) as [X|X]; [congruence | lia].
+          destruct (J7 Ed Ho Hact) as [X|X]; [congruence | lia].
     - split; [exact I|]. intros _ Ho. split; [exact Ed|]. split; [reflexivity|]. split; [exact Ho|].
       split; [auto|]. intros Hnq. exfalso. apply Hnq.
       apply orb_false_iff in Eact. destruct Eact as [X Y].
       apply negb_false_iff, is_nil_true in X. unfold compression_pending in Y. apply negb_false_iff in Y.
       split; [exact X|]. destruct (w_in w); [discriminate | reflexivity].
   Qed.
+
+  (* ------------------------------------------------------------------ whole runs: the read side *)
+  Definition rdata (r : rxo) : list Z := match r with RData bs => bs | _ => [] end.
+  (* everything the peer has sent by the end of a user/peer program *)
+  Definition ops_zs (ops : list op) (zs : list Z) : list Z :=
+    fold_left (fun z o => match o with ORx r => z ++ rdata r | _ => z end) ops zs.
+  Lemma ops_zs_app ops : forall zs, ops_zs ops zs = zs ++ ops_zs ops [].
+  Proof.
+    induction ops as [|o ops IH]; intros zs; cbn; [now rewrite app_nil_r|].
+    destruct o; try apply IH. rewrite IH. symmetry. rewrite IH. cbn. rewrite app_assoc. reflexivity.
+  Qed.
+
+  Lemma IInv_frame (w w' : world) zs :
+    w_i w' = w_i w -> w_in w' = w_in w -> w_rx w' = w_rx w -> w_fed w' = w_fed w -> IInv w zs -> IInv w' zs.
+  Proof.
+    intros A B C D (zin & H1 & H2 & H3). exists zin. unfold pend_ok in *. rewrite A, B, C, D. auto.
+  Qed.
+
+  Lemma send_phase_IInv (w : world) zs : IInv w zs -> IInv (send_phase w) zs.
+  Proof.
+    intros I. pose proof (send_phase_light w) as [(A & B & C & D & _) _]. eapply IInv_frame; eauto.
+  Qed.
+
+  Lemma run_once_IInv (w : world) zs :
+    IInv w zs -> wf zs -> w_fault (run_once w) = NoFault -> IInv (run_once w) zs.
+  Proof.
+    intros I Hwf Hf. unfold run_once in *. cbn in Hf.
+    destruct (read_phase_spec (send_phase w) zs (send_phase_IInv w zs I) Hwf Hf) as [I2 _].
+    eapply IInv_frame; [| | | |exact I2]; reflexivity.
+  Qed.
+
+  Lemma step_IInv (w : world) o zs :
+    IInv w zs -> wf (ops_zs [o] zs) -> w_fault (step w o) = NoFault -> IInv (step w o) (ops_zs [o] zs).
+  Proof.
+    intros I Hwf Hf. destruct o; cbn in *.
+    - destruct (w_disc w); [exact I|]. eapply IInv_frame; [| | | |exact I]; reflexivity.
+    - eapply IInv_frame; [| | | |exact I]; reflexivity.
+    - destruct I as (zin & H1 & H2 & H3). exists zin. unfold pend_ok in *. cbn.
+      split; [exact H1|]. split; [|exact H3].
+      unfold undecoded in *. rewrite rx_stream_app, H2, <- !app_assoc. f_equal. f_equal. f_equal.
+      destruct r; cbn; rewrite ?app_nil_r; reflexivity.
+    - apply run_once_IInv; assumption.
+  Qed.
+
+  Lemma run_IInv ops : forall (w : world) zs,
+    IInv w zs -> wf (ops_zs ops zs) -> w_fault (run w ops) = NoFault -> IInv (run w ops) (ops_zs ops zs).
+  Proof.
+    induction ops as [|o ops IH]; intros w zs I Hwf Hf; cbn in *; [exact I|].
+    apply IH; [|exact Hwf|exact Hf].
+    apply (step_IInv w o zs I).
+    - change (fold_left _ ops _) with (ops_zs ops (ops_zs [o] zs)) in Hwf.
+      rewrite ops_zs_app in Hwf. eapply (zc_wf_prefix _ _ _ _ _ _ _ _ _ HC); exact Hwf.
+    - eapply mono_nofault; [apply run_mono | exact Hf].
+  Qed.
+
+  Lemma init_IInv dr e0 : IInv (init_world z0 i0 dr e0) [].
+  Proof. exists []. unfold pend_ok. cbn. split; [constructor|]. split; [reflexivity | exact I]. Qed.
+
+  Lemma transparent_in_safe ops dr e0 :
+    let w := run (init_world z0 i0 dr e0) ops in
+    wf (ops_zs ops []) -> w_fault w = NoFault -> prefix (w_fed w) (dec (ops_zs ops [])).
+  Proof.
+    intros w Hwf Hf. apply (IInv_fed_le w). apply run_IInv; [apply init_IInv | exact Hwf | exact Hf].
+  Qed.
+
+  Lemma mu0_quiescent (w : world) zs :
+    IInv w zs -> only_data (w_rx w) -> length (undecoded (w_in w) (w_rx w)) = O -> quiescent w.
+  Proof.
+    intros (zin & _ & _ & Hpo) Ho Hl. unfold undecoded, pend_ok, quiescent in *.
+    rewrite app_length in Hl.
+    split.
+    - destruct (w_rx w) as [|r rest]; [reflexivity|]. inversion Ho; subst.
+      destruct r; try contradiction. cbn in Hl. rewrite app_length in Hl. destruct bs; [congruence | cbn in Hl; lia].
+    - destruct (w_in w) as [r|]; [|reflexivity]. destruct Hpo as [Hne _]. destruct r; [congruence | cbn in Hl; lia].
+  Qed.
+
+  Lemma drain n : forall (w : world) zs,
+    IInv w zs -> OInv w -> wf zs -> only_data (w_rx w) -> w_disc w = false -> w_error w = 0 -> w_tx w = [] ->
+    w_fault (run w (repeat ORun n)) = NoFault ->
+    IInv (run w (repeat ORun n)) zs /\ w_disc (run w (repeat ORun n)) = false /\
+    (quiescent w \/ (mu w zs <= n)%nat -> quiescent (run w (repeat ORun n))).
+  Proof.
+    induction n as [|n IH]; intros w zs I O Hwf Ho Hd He Ht Hf; cbn [repeat run fold_left] in *.
+    - split; [exact I|]. split; [exact Hd|]. intros [Q|Q]; [exact Q|].
+      eapply mu0_quiescent; eauto. unfold mu in Q. lia.
+    - change (fold_left _ (repeat ORun n) (step w ORun)) with (run (run_once w) (repeat ORun n)) in *.
+      assert (Hf1 : w_fault (run_once w) = NoFault) by (eapply mono_nofault; [apply run_mono | exact Hf]).
+      assert (Hfs : w_fault (send_phase w) = NoFault).
+      { unfold run_once in Hf1. cbn in Hf1. eapply mono_nofault; [apply read_phase_light | exact Hf1]. }
+      destruct (send_phase_spec w O Hfs) as [Os Cs]. destruct (Cs Ht Hd) as (_ & _ & Ts & _ & _ & Es).
+      destruct (Es He) as [Ds Ees].
+      pose proof (send_phase_light w) as [(A1 & A2 & A3 & A4 & _) _].
+      assert (Hos : only_data (w_rx (send_phase w))) by (rewrite A3; exact Ho).
+      assert (Hfr : w_fault (read_phase (send_phase w)) = NoFault) by (unfold run_once in Hf1; cbn in Hf1; exact Hf1).
+      destruct (read_phase_spec (send_phase w) zs (send_phase_IInv w zs I) Hwf Hfr) as [Ir Cr].
+      destruct (Cr Ds Hos) as (Dr & Er & Hor & Qr & Mr).
+      pose proof (read_phase_light (send_phase w)) as [(B1 & B2 & B3 & B4 & B5 & B6 & B7) _].
+      assert (I1 : IInv (run_once w) zs) by (apply run_once_IInv; assumption).
+      assert (O1 : OInv (run_once w)) by (apply run_once_OInv; assumption).
+      assert (P : w_rx (run_once w) = w_rx (read_phase (send_phase w)) /\ w_disc (run_once w) = w_disc (read_phase (send_phase w)) /\
+                  w_error (run_once w) = w_error (read_phase (send_phase w)) /\ w_tx (run_once w) = w_tx (read_phase (send_phase w)) /\
+                  w_in (run_once w) = w_in (read_phase (send_phase w)) /\ w_fed (run_once w) = w_fed (read_phase (send_phase w)))
+        by (unfold run_once; cbn; repeat split).
+      destruct P as (P1 & P2 & P3 & P4 & P5 & P6).
+      destruct (IH (run_once w) zs I1 O1 Hwf) as (J1 & J2 & J3); try congruence.
+      split; [exact J1|]. split; [exact J2|].
+      intros HQ. apply J3.
+      assert (Hqs : quiescent w -> quiescent (run_once w)).
+      { intros [Q1 Q2]. unfold quiescent. rewrite P1, P5. apply Qr. unfold quiescent. rewrite A2, A3. split; assumption. }
+      destruct HQ as [Q|Q]; [left; apply Hqs; exact Q|].
+      assert (Hmu : mu (send_phase w) zs = mu w zs) by (unfold mu; rewrite A2, A3, A4; reflexivity).
+      assert (Hmu1 : mu (run_once w) zs = mu (read_phase (send_phase w)) zs) by (unfold mu; rewrite P1, P5, P6; reflexivity).
+      destruct (w_rx (send_phase w)) as [|r0 rr] eqn:Erx; [destruct (w_in (send_phase w)) eqn:Ein|].
+      + right. rewrite Hmu1. assert (~ quiescent (send_phase w)) by (intros [_ X]; congruence).
+        specialize (Mr H). lia.
+      + left. unfold quiescent. rewrite P1, P5. apply Qr. split; assumption.
+      + right. rewrite Hmu1. assert (~ quiescent (send_phase w)) by (intros [X _]; congruence).
+        specialize (Mr H). lia.
+  Qed.
+
+  Lemma transparent_in_complete ops dr e0 n :
+    let w := run (init_world z0 i0 dr e0) ops in
+    let zs := ops_zs ops [] in
+    let w' := run w (repeat ORun n) in
+    wf zs -> fp zs -> only_data (w_rx w) -> w_disc w = false -> w_error w = 0 -> w_tx w = [] ->
+    (length (undecoded (w_in w) (w_rx w)) + length (dec zs) <= n)%nat ->
+    w_fault w' = NoFault ->
+    w_fed w' = dec zs /\ w_disc w' = false.
+  Proof.
+    intros w zs w' Hwf Hfp Ho Hd He Ht Hn Hf.
+    assert (Hf0 : w_fault w = NoFault) by (eapply mono_nofault; [apply run_mono | exact Hf]).
+    assert (I : IInv w zs) by (apply run_IInv; [apply init_IInv | exact Hwf | exact Hf0]).
+    assert (O : OInv w) by (apply run_OInv; [apply init_OInv | exact Hf0]).
+    destruct (drain n w zs I O Hwf Ho Hd He Ht Hf) as (J1 & J2 & J3).
+    split; [|exact J2].
+    assert (Q : quiescent w') by (apply J3; right; unfold mu; lia).
+    destruct J1 as (zin & HIR & Hzs & _). destruct Q as [Q1 Q2].
+    unfold undecoded in Hzs. fold w' in Hzs. rewrite Q1, Q2 in Hzs. cbn in Hzs. rewrite app_nil_r in Hzs. subst zin.
+    eapply (zc_i_flushpoint _ _ _ _ _ _ _ _ _ HC); eauto.
+  Qed.
 End Staging.
+
+(* ================================================================================================
+   The stored codec satisfies the contract (so the contract is satisfiable and the theorems are not vacuous)
+   ================================================================================================ *)
+Ltac tsplit := repeat match goal with |- _ /\ _ => split end.
+
+Lemma st_dec_enc b : st_dec (st_enc b) = b.
+Proof. unfold st_dec, st_enc, FLUSH_MARK. destruct (b <? 256) eqn:E; [rewrite E; reflexivity|].
+  apply Z.ltb_ge in E. destruct (b + 1 <? 256) eqn:E2; [apply Z.ltb_lt in E2; lia | lia]. Qed.
+Lemma st_enc_not_mark b : (st_enc b =? FLUSH_MARK) = false.
+Proof. unfold st_enc, FLUSH_MARK. destruct (b <? 256) eqn:E; apply Z.eqb_neq; [apply Z.ltb_lt in E | apply Z.ltb_ge in E]; lia. Qed.
+Lemma stored_dec_app a b : stored_dec (a ++ b) = stored_dec a ++ stored_dec b.
+Proof. unfold stored_dec. rewrite filter_app, map_app. reflexivity. Qed.
+Lemma stored_dec_enc l : stored_dec (map st_enc l) = l.
+Proof.
+  unfold stored_dec. induction l as [|b l IH]; cbn; [reflexivity|].
+  rewrite st_enc_not_mark. cbn. rewrite st_dec_enc. f_equal. exact IH.
+Qed.
+Lemma stored_dec_mark : stored_dec [FLUSH_MARK] = [].
+Proof. reflexivity. Qed.
+
+Lemma stored_deflate_spec dirty inp room fl z' k outp st :
+  (0 < room)%nat -> stored_deflate dirty inp room fl = (z', k, outp, st) ->
+  (k <= length inp)%nat /\ (length outp <= room)%nat /\ stored_dec outp = firstn k inp /\
+  (z' = false -> (dirty = false /\ outp = []) \/ exists o, outp = o ++ [FLUSH_MARK]) /\
+  (is_flush fl = false -> inp <> [] -> st = ZOk) /\
+  (is_flush fl = true -> inp = [] -> st = ZOk \/ st = ZBufError) /\
+  (is_flush fl = true -> st = ZOk -> (length outp < room)%nat ->
+     k = length inp /\ exists o, outp = o ++ [FLUSH_MARK]) /\
+  (is_flush fl = true -> inp = [] -> st = ZBufError -> k = O /\ outp = [] /\ dirty = false).
+Proof.
+  intros Hr H. unfold stored_deflate in H. destruct room as [|r']; [lia|].
+  set (room := S r') in *.
+  set (k0 := Nat.min (length inp) room) in *.
+  assert (Hk0 : (k0 <= length inp)%nat /\ (k0 <= room)%nat) by (subst k0; lia).
+  assert (Hl1 : length (map st_enc (firstn k0 inp)) = k0) by (rewrite map_length, firstn_length; lia).
+  assert (Hde : stored_dec (map st_enc (firstn k0 inp)) = firstn k0 inp) by apply stored_dec_enc.
+  destruct (is_flush fl) eqn:Efl; cbn [negb] in H.
+  - destruct (Nat.ltb k0 (length inp)) eqn:Elt.
+    + apply Nat.ltb_lt in Elt. injection H as <- <- <- <-.
+      assert (k0 = room) by (subst k0; lia).
+      assert (Hinp : inp <> []) by (intros ->; cbn in Elt; lia).
+      repeat match goal with |- _ /\ _ => split end; intros; try discriminate; try lia; try (rewrite Hl1; lia); auto; try congruence.
+      apply orb_false_iff in H0. destruct H0 as [_ X]. apply negb_false_iff, Nat.eqb_eq in X. lia.
+    + apply Nat.ltb_ge in Elt. assert (Hk : k0 = length inp) by lia.
+      destruct (dirty || negb (Nat.eqb k0 0)) eqn:Ed.
+      * destruct (Nat.ltb k0 room) eqn:Er.
+        -- apply Nat.ltb_lt in Er. injection H as <- <- <- <-.
+           repeat match goal with |- _ /\ _ => split end; intros; try discriminate; try lia; auto.
+           ++ rewrite app_length, Hl1. cbn. lia.
+           ++ rewrite stored_dec_app, Hde, stored_dec_mark, app_nil_r. reflexivity.
+           ++ right. eexists; reflexivity.
+           ++ split; [lia | eexists; reflexivity].
+        -- apply Nat.ltb_ge in Er. injection H as <- <- <- <-.
+           repeat match goal with |- _ /\ _ => split end; intros; try discriminate; try lia; try (rewrite Hl1; lia); auto.
+      * injection H as <- <- <- <-. apply orb_false_iff in Ed. destruct Ed as [Ed1 Ed2].
+        repeat match goal with |- _ /\ _ => split end; intros; try discriminate; cbn; try lia; auto.
+  - injection H as <- <- <- <-.
+    repeat match goal with |- _ /\ _ => split end; intros; try discriminate; try lia; try (rewrite Hl1; lia); auto.
+    + apply orb_false_iff in H. destruct H as [X1 X2]. apply negb_false_iff, Nat.eqb_eq in X2.
+      left. split; [exact X1|]. rewrite X2. reflexivity.
+    + destruct inp; [congruence | reflexivity].
+Qed.
+
+Lemma stored_DR_inv dirty cin cout :
+  DR bool stored_deflate false dirty cin cout -> stored_dec cout = cin /\ (dirty = false -> stored_fp cout).
+Proof.
+  intros H. induction H as [|z cin cout inp room fl z' k outp st HDR IH Hr E].
+  - split; [reflexivity | intros; left; reflexivity].
+  - destruct IH as [IH1 IH2]. destruct (stored_deflate_spec _ _ _ _ _ _ _ _ Hr E) as (_ & _ & Hd & Hz & _).
+    split; [rewrite stored_dec_app, IH1, Hd; reflexivity|].
+    intros Hz'. destruct (Hz Hz') as [[X Y]|[o Y]]; subst outp.
+    + rewrite app_nil_r. auto.
+    + right. exists (cout ++ o). rewrite app_assoc. reflexivity.
+Qed.
+
+Lemma stored_scan_spec inp : forall room k o,
+  stored_scan inp room = (k, o) ->
+  (k <= length inp)%nat /\ (length o <= room)%nat /\ o = stored_dec (firstn k inp) /\
+  (inp <> [] -> (0 < room)%nat -> (0 < k)%nat) /\
+  ((k < length inp)%nat -> length o = room /\ exists b t, skipn k inp = b :: t /\ (b =? FLUSH_MARK) = false).
+Proof.
+  induction inp as [|b t IH]; intros room k o H; cbn in H.
+  - injection H as <- <-. cbn. tsplit; auto; try lia; intros; try congruence; lia.
+  - destruct (b =? FLUSH_MARK) eqn:Eb.
+    + destruct (stored_scan t room) as [k1 o1] eqn:E. injection H as <- <-.
+      destruct (IH _ _ _ E) as (A & B & C & D & F).
+      cbn [length firstn skipn]. unfold stored_dec in *. cbn [filter]. rewrite Eb. cbn [negb].
+      tsplit; auto; try lia. intros X. apply F. lia.
+    + destruct room as [|r].
+      * injection H as <- <-. cbn. tsplit; auto; try lia. intros _. split; [reflexivity|]. exists b, t. auto.
+      * destruct (stored_scan t r) as [k1 o1] eqn:E. injection H as <- <-.
+        destruct (IH _ _ _ E) as (A & B & C & D & F).
+        cbn [length firstn skipn]. unfold stored_dec in *. cbn [filter]. rewrite Eb. cbn [negb map].
+        tsplit; auto; try lia; try (f_equal; exact C).
+        intros X. destruct F as [F1 F2]; [lia|]. split; [lia | exact F2].
+Qed.
+
+Lemma stored_IR_inv i zin pout : IR unit stored_inflate tt i zin pout -> pout = stored_dec zin.
+Proof.
+  intros H. induction H as [|i zin pout inp room i' k outp st HIR IH Hr E]; [reflexivity|].
+  unfold stored_inflate in E. destruct (stored_scan inp room) as [k1 o1] eqn:Es. injection E as <- <- <- <-.
+  destruct (stored_scan_spec _ _ _ _ Es) as (_ & _ & C & _).
+  rewrite stored_dec_app, IH, C. reflexivity.
+Qed.
+
+Lemma stored_contract :
+  zcontract bool unit stored_deflate stored_inflate false tt stored_dec stored_fp stored_wf.
+Proof.
+  constructor.
+  - intros z cin cout inp room fl z' k outp st _ Hr E.
+    destruct (stored_deflate_spec _ _ _ _ _ _ _ _ Hr E) as (A & B & _). auto.
+  - intros i zin pout inp room i' k outp st _ Hr E.
+    unfold stored_inflate in E. destruct (stored_scan inp room) as [k1 o1] eqn:Es. injection E as <- <- <- <-.
+    destruct (stored_scan_spec _ _ _ _ Es) as (A & B & _). auto.
+  - intros a b. rewrite stored_dec_app. apply prefix_app.
+  - intros z cin cout H. destruct (stored_DR_inv _ _ _ H) as [-> _]. apply prefix_refl.
+  - intros z cin cout inp room fl z' k outp HDR Hr Hfl E Hlt.
+    destruct (stored_DR_inv _ _ _ HDR) as [Hd _].
+    destruct (stored_deflate_spec _ _ _ _ _ _ _ _ Hr E) as (_ & _ & Hdo & _ & _ & _ & Hc & _).
+    destruct (Hc Hfl eq_refl Hlt) as [Hk [o Ho]].
+    split; [exact Hk|]. split.
+    + rewrite stored_dec_app, Hd, Hdo, Hk, firstn_all. reflexivity.
+    + right. exists (cout ++ o). rewrite Ho, app_assoc. reflexivity.
+  - intros z cin cout room fl z' k outp HDR Hr Hfl E.
+    destruct (stored_DR_inv _ _ _ HDR) as [Hd Hfp].
+    destruct (stored_deflate_spec _ _ _ _ _ _ _ _ Hr E) as (_ & _ & _ & _ & _ & _ & _ & Hi).
+    destruct (Hi Hfl eq_refl eq_refl) as (A & B & C). auto.
+  - intros z cin cout inp room fl z' k outp st _ Hr E.
+    destruct (stored_deflate_spec _ _ _ _ _ _ _ _ Hr E) as (_ & _ & _ & _ & A & B & _). auto.
+  - intros i zin pout H. rewrite (stored_IR_inv _ _ _ H). apply prefix_refl.
+  - intros i zin pout inp room i' k outp st HIR Hr Hne _ E.
+    pose proof (stored_IR_inv _ _ _ HIR) as Hp.
+    unfold stored_inflate in E. destruct (stored_scan inp room) as [k1 o1] eqn:Es. injection E as <- <- <- <-.
+    destruct (stored_scan_spec _ _ _ _ Es) as (A & B & C & D & F).
+    specialize (D Hne Hr).
+    split; [destruct k1; [lia | reflexivity]|]. split; [left; exact D|].
+    split.
+    + destruct (Nat.lt_ge_cases k1 (length inp)) as [X|X]; [right; apply F; exact X | left; lia].
+    + intros Hlt. assert (k1 = length inp).
+      { destruct (Nat.lt_ge_cases k1 (length inp)) as [X|X]; [destruct (F X); lia | lia]. }
+      subst k1. rewrite firstn_all in C. rewrite stored_dec_app, Hp, C. reflexivity.
+  - intros i zin pout inp room i' k outp HIR Hr _ E Hk room' i'' k' outp' st' Hr' E'.
+    unfold stored_inflate in E. destruct (stored_scan inp room) as [k1 o1] eqn:Es. injection E as <- <- <-.
+    destruct (stored_scan_spec _ _ _ _ Es) as (_ & _ & _ & _ & F).
+    destruct (F Hk) as (_ & b & t & Hs & Hb).
+    unfold stored_inflate in E'. rewrite Hs in E'. cbn in E'. rewrite Hb in E'.
+    destruct room' as [|r']; [lia|]. destruct (stored_scan t r') as [k2 o2]. injection E' as <- <- <- <-. congruence.
+  - intros i zin pout H _. apply (stored_IR_inv _ _ _ H).
+  - intros; exact I.
+Qed.
